@@ -353,6 +353,15 @@ def judge_c02(d):
     if q.startswith("c08 "):
         # an HTTP/1.1 tunnel's first payload bytes may share a segment with the request head (suite c08 runs here too)
         return judge_c08(d)
+    if q.startswith("c15 "):
+        # the tunnel's destination leg behind a SOCKS5 proxy (suite c15 runs here too): only what the connection then delivers
+        if q.startswith("c15 fwd ") and " | connected" in impl and " | connected" in model:
+            di, dm = impl.rsplit(" ", 1)[1], model.rsplit(" ", 1)[1]
+            if di != dm:
+                return ("a tunnel through the SOCKS5 forwarder, whose proxy answered the CONNECT with success: the download direction starts with "
+                        "%r, the destination sent %r (bytes of the proxy's reply handed on as payload, or payload taken for the reply)" % (
+                            (b"" if di == "-" else unhex(di))[:80], (b"" if dm == "-" else unhex(dm))[:80]))
+        return None
     if q.startswith("c02 h3streams "):
         ops = q.split()[3].split(";")
         for k, (a, b) in enumerate(zip(impl.split(" | "), model.split(" | "))):
@@ -517,6 +526,10 @@ def judge_c10(d):
         return ("CONNECT through the real direct forwarder (allow_private_network_connections=%s, ipv6_available=%s) to %s was answered "
                 "[status X-Warning challenge X-Adguard-Vpn-Error] = [%s]; the documented answer for that destination is [%s] "
                 "(310 = non-routable, 311 = loopback, 300 = connection failed)" % (t[2], t[3], " ".join(t[4:]), impl, model))
+    if q.startswith("c10 errno "):
+        return ("a request through the real direct forwarder whose outbound connect fails with OS error %s was answered [status X-Warning challenge "
+                "X-Adguard-Vpn-Error] = [%s]; the documented answer is [%s] (301 = unreachable: ENETUNREACH 101, EHOSTUNREACH 113; 302 = timed out: "
+                "ETIMEDOUT 110; 300 = connection failed)" % (q.split()[2], impl, model))
     if q.startswith("c10 socks "):
         return ("CONNECT through the real SOCKS5 forwarder whose upstream answered the request with %s (RFC 1928 REP; closed = connection "
                 "closed, malformed = not a reply) was answered [status X-Warning challenge X-Adguard-Vpn-Error] = [%s]; the documented answer is "
@@ -659,6 +672,13 @@ def judge_c18(d):
 
 def judge_c20(d):
     q, impl, model = d["query"], d["impl"], d["model"]
+    if q.startswith("c20 written"):
+        t = q.split()
+        target = "" if t[5] == "-" else unhex(t[5]).decode("latin-1")
+        lv = ["off", "error", "warn", "info", "debug", "trace"]
+        return ("the endpoint's %s logger %s a %s record of target %r at maximum level %s; the filter (TT/Model/Scrub.lean loggable) %s "
+                "(the TLS library's trace records dump the ClientHello with its server name)" % (
+                    t[2], "wrote" if impl == "1" else "did not write", lv[int(t[4])], target, lv[int(t[3])], "drops it" if model == "0" else "lets it through"))
     if q.startswith("c20 loggable"):
         t = q.split()
         target = "" if t[4] == "-" else unhex(t[4]).decode("latin-1")
@@ -761,7 +781,8 @@ PROPS = {
              " Also 3 (thorough 8) hellos per rule list spread over two TLS records (cut after 4, 20, 39 bytes): the endpoint's look at the first record cannot determine the random, the model is asked with the random unavailable - lists with a random pattern fail closed"
              " Two rule lists look only at the end of the 32-byte random (a bit of byte 28; of byte 31, as an allow rule before a catch-all deny): on QUIC too the pattern is compared with the whole random"
              " Long hellos (one record of about 2, 6, 14 KiB, made long by the ALPN list) with chosen randoms: the random is in the first 43 bytes whatever follows"
-             " Rules files with fields given as empty strings (an empty CIDR matches nobody, an empty prefix still asks for a client random)",
+             " Rules files with fields given as empty strings (an empty CIDR matches nobody, an empty prefix still asks for a client random)"
+             " A QUIC connection whose request got no answer (denied) keeps sending PINGs: within 2 s the endpoint must have closed it (suite c04live)",
         explanation="theorems first_match_wins, default_allow, fail_closed_without_random, prefix/mask semantics, "
                     "malformed_never_matches, mapped_peer_eq_v4_peer, deny_precedes_handshake about TT/Model/Rules.lean",
         trusted=["ipnet CIDR parsing and hex::decode (the harness passes parsed CIDRs to the model; hex decoding is modelled)",
@@ -790,7 +811,8 @@ PROPS = {
              "rules must be given the true random or none (`None`, so that random rules fail closed) - never another value"
              " The read loop also gets streams that end before the first record is complete (cut after 0, 1, 4, 5, 9, 43, 44 bytes, in the middle, one byte short): it must return at once with the random absent and the bytes replayed"
              " Five clients deliver their hello with the following segment 250 - 700 ms late (a retransmission): still the hello's random"
-             " Every other QUIC hello carries eight 200-byte ALPN identifiers behind h3 (about 2 KiB of CRYPTO data, two Initial packets)",
+             " Every other QUIC hello carries eight 200-byte ALPN identifiers behind h3 (about 2 KiB of CRYPTO data, two Initial packets)"
+             " Six first flights that do not fit the 16 KiB prebuffer (the longest hello plus 2.5-8 KB, first segment 517 / 1 / 1023 ... bytes): the replayed stream must equal what was sent",
         explanation="theorems extract_exact, prefix_needs_more, found_is_the_field, loop_segmentation_invariant, "
                     "loop_absent_never_wrong, loop_conserves, replay_transparent/complete about TT/Model/ClientHello.lean",
         trusted=["tls-parser 0.12 record/handshake/ClientHello walk as transcribed; exactness claimed for records whose first handshake "
@@ -809,7 +831,8 @@ PROPS = {
              "codes 0..10, address types incl. invalid, reserved byte, bad UTF-8 domain) truncated at a random byte in a third of the "
              "cases and delivered whole / byte-wise / in 2-4 segments; every 8th case also through Socks5Forwarder against a loopback "
              "TCP server; relayed datagrams through a real UDP association"
-             " The forwarder runs also compare what the upstream received with the model's client messages (the scripted upstream answers step by step), with IPv4-mapped, IPv4-compatible, NAT64, loopback and unspecified IPv6 literals among the destinations",
+             " The forwarder runs also compare what the upstream received with the model's client messages (the scripted upstream answers step by step), with IPv4-mapped, IPv4-compatible, NAT64, loopback and unspecified IPv6 literals among the destinations"
+             " The forwarder block reads the established connection: behind a success reply the destination's bytes come out exactly (afterDialogue)",
         explanation="theorems selection_wellformed, userpass_wellformed_or_fails, request_wellformed_or_fails, extended_wellformed, "
                     "split_first_colon, sent_is_encoded_messages, proceeds_only_if_offered_and_success, failure_reply_fails_request, "
                     "reply_truncation_is_error, udp_unwrap_wrap, udp_unwrap_no_panic about TT/Model/Socks5.lean",
@@ -887,6 +910,7 @@ PROPS = {
     "C02": dict(
         retry_on_failure=True,
         suites=["c02", "c02live", "c02h3", "c08"],
+        borrowed_suites={"c15": []},
         judge=judge_c02,
         level="proof",
         rule="3000 (thorough 40000) random duplex scripts: per direction 0-4 chunks (sizes 0,1,2,3,5,8) then EOF / read error / silence, "
@@ -911,7 +935,8 @@ PROPS = {
              "is replayed by the Lean model TT.H3Streams, which must hold the same table after each"
              " The HTTP/1.1 head / payload suite of C08 (c08) runs here as well: payload that shares a segment with the CONNECT head is the start of the relayed stream. Directed pipe histories: one direction ends at once, the other delivers 3 or 6 chunks with gaps of T/2, 3T/4, T-1 into a sink that takes everything / one byte per write / is slow to become writable (the replay checks that the surviving direction is cancelled only at its own timer, `survivorDeadline`)"
              " The HTTP/2 clients of the live tunnels send DATA frames without payload in the middle of their uploads"
-             " After an origin reset an HTTP/2 client must see its stream reset, not ended (END_STREAM would present the cut answer as complete)",
+             " After an origin reset an HTTP/2 client must see its stream reset, not ended (END_STREAM would present the cut answer as complete)"
+             " Behind a SOCKS5 proxy (suite c15, borrowed): the scripted proxy's success reply (IPv4, IPv6 or domain bound address) is followed at once by destination data; what the connection returned by the real Socks5Forwarder's TCP connector then delivers must be exactly that data (model afterDialogue)",
         explanation="theorems stream_invariant, delivered_is_prefix, credit_*, finished_complete, eof_only_when_drained, eof_after_writes, "
                     "restart_preserves, no_call_after_failure, duplex_* about TT/Model/Pipe.lean for every answer sequence; "
                     "table_invariant, read_finished_keeps_response_side, reset_removes_stream, halves_end_independently, "
@@ -951,7 +976,8 @@ PROPS = {
              " Idle tunnels as the client sees them (in c14live): CONNECT over the real HTTP/1.1 and HTTP/2 codecs through the real direct forwarder to a loopback origin that stays silent, T = 500 ms, with one relayed byte or none: the client's connection (h1) / stream (h2) must end between T and 2T + slack after the last byte, and the origin's connection with it"
              " Two more clients that never finish: one complete TLS record holding the first 32 bytes of the hello's handshake message, then silence; one complete record of another type, then silence"
              " One-sided traffic (in c14live): over real HTTP/1.1 and HTTP/2 codecs, the client - or the origin - sends a byte every T/3 for 3T while the other side is silent: the silent direction's timer fires and restarts the pipe's loops again and again, the tunnel must stay up and every byte arrive"
-             " Abandoned connects (suite c14live): CONNECT over HTTP/1.1 and HTTP/2 through the real direct forwarder to a loopback listener whose accept queue is full, establishment timeout 400 ms: the error comes no earlier than the timeout, and 300 ms later no socket of the process is in SYN_SENT towards that destination (/proc/net/tcp)",
+             " Abandoned connects (suite c14live): CONNECT over HTTP/1.1 and HTTP/2 through the real direct forwarder to a loopback listener whose accept queue is full, establishment timeout 400 ms: the error comes no earlier than the timeout, and 300 ms later no socket of the process is in SYN_SENT towards that destination (/proc/net/tcp)"
+             " Half-closed and stalled (24 directed shapes, 72 thorough): one direction ended at once, the other's sink takes part of a chunk and is then never writable while the source is silent - exchange() must return TimedOut (a run still going after 60 T is reported as hung)",
         explanation="theorems idle_not_early, idle_bound_2T, progress_at_deadline_keeps_open, wf_step about the Timer model of "
                     "TT/Model/Pipe.lean; establishment_timeout_reported, establishment_in_time_connected, "
                     "establishment_timeout_destination_independent about TT.Dispatch.handle (the request path model of C10); "
@@ -1054,7 +1080,8 @@ PROPS = {
         rule='sessions over the real Http1Codec (1 request) and Http2Codec (1-3, thorough 1-5 concurrent streams) on in-memory transports through the real Core::on_tunnel_request / Tunnel / HttpDownstream with a scripted forwarder injected at Core::make_forwarder: authenticator {none, registry of 2 clients, scripted accepting one token and one SNI}, SNI credentials {none, accepted, rejected}, methods {CONNECT, GET, POST, OPTIONS, HEAD}, 19 authorities (reserved names, look-alikes differing by case / suffix / port, literals v4/v6 with and without port, names with and without port, bad port), 13 Proxy-Authorization forms (absent, two valid, wrong password / user, Bearer, lower-case scheme, no space, bad base64, non-UTF-8, empty, empty token, trailing space), 13 connect outcomes (ok, refused, unreachable, timed out, 310, 311, resolver failure, EMFILE, other, upstream auth failure, completion at D-1 / D / D+1 ms under the paused clock), UDP/ICMP multiplexer failures; per request status, X-Warning code, challenge, X-Adguard-Vpn-Error and the multiset of forwarder calls are compared with the Lean session model'
              ' HTTP/3 part (suite c01h3, wall clock): 150 (thorough 1200) sessions of 1-3 concurrent request streams through the real Core::listen on a loopback UDP port (QUIC multiplexer, HTTP/3 codec, Tunnel, HttpDownstream; quiche client of the harness; SNI credentials travel as <credentials>.localhost in the QUIC ClientHello), same authenticators, authorities, Proxy-Authorization forms and immediate connect outcomes, same query format and model'
              " The registry has a client with a mixed-case name (Alice / S3cret); the Proxy-Authorization pool has the pair as configured and re-cased / padded spellings of it and of user:pass (alice, ALICE, s3cret, User, 'pass ')"
-             " Borrowed: the plain-HTTP forwarding suite of C17 (c17), for request bytes that leave the endpoint beyond the authorised request (a third of the generated requests with a declared length carry a pipelined next request behind their body)",
+             " Borrowed: the plain-HTTP forwarding suite of C17 (c17), for request bytes that leave the endpoint beyond the authorised request (a third of the generated requests with a declared length carry a pipelined next request behind their body)"
+             " One session in three carries an end-to-end Authorization header on every request (valid credentials of a configured client, a Bearer token, other Basic credentials): it never passes the gate and never spoils a connection accepted by its SNI",
         explanation="theorems gate_sound, policy_authenticated_only_if_accepted, registry_accepts_iff, reject_is_407_no_egress, "
                     "egress_only_after_pass, registry_no_egress_without_credentials, decision_history_independent about TT/Model/Dispatch.lean",
         trusted=["HTTP/3 is driven live (a sample of sessions over real QUIC on loopback): quiche on both sides is trusted, and timing there is the wall clock",
@@ -1076,8 +1103,9 @@ PROPS = {
              "sockets) whose loopback upstream answers the request with every reply code 0..9, with REP bytes that are none (0x10, 0x7f, "
              "0xff), with a reply of version 4, or closes: exactly one final response, status and warning compared with socksOutcome."
              " HTTP/3 part (suite c10h3, wall clock): 150 (thorough 1200) sessions of 1-3 concurrent request streams through the real Core::listen on a loopback UDP port (QUIC multiplexer, HTTP/3 codec, Tunnel, HttpDownstream; quiche client of the harness; SNI credentials travel as <credentials>.localhost in the QUIC ClientHello), same authenticators, authorities, Proxy-Authorization forms and immediate connect outcomes, same query format and model"
-             " HTTP/1.1 CONNECTs are sent authority-form, origin-form (`CONNECT /` with the authority in Host) and absolute-form: the destination is the same authority - without a port it is refused whatever the form",
-        explanation="theorems exactly_one_final, codes_documented, outcome_codes, socks_upstream_codes, connect_result, reserved_never_resolved, "
+             " HTTP/1.1 CONNECTs are sent authority-form, origin-form (`CONNECT /` with the authority in Host) and absolute-form: the destination is the same authority - without a port it is refused whatever the form"
+             " OS errors of the outbound connect: 11 error numbers (ENETUNREACH, EHOSTUNREACH, EHOSTDOWN, ENETDOWN, ETIMEDOUT, ECONNREFUSED, ...) x CONNECT to an IPv4 and an IPv6 literal and a plain-HTTP GET through the real direct forwarder, compared with connErrOfErrno (whose lists the translator reads from io_to_connection_error; theorem os_error_codes)",
+        explanation="os_error_codes (lists regenerated from io_to_connection_error); theorems exactly_one_final, codes_documented, outcome_codes, socks_upstream_codes, connect_result, reserved_never_resolved, "
                     "lookalikes_are_hosts, connect_without_port_refused, health_and_mux_accepted about TT/Model/Dispatch.lean with "
                     "statusOf / warnOf / reserved names regenerated from http_downstream.rs on every run",
         trusted=["authority parsing (http::uri::Authority::port_u16 / host, SocketAddr::from_str): the parsed view is a model input",
@@ -1156,7 +1184,8 @@ PROPS = {
              "released with the association's last flow) are run here too"
              " Before the listener is queried, two connections that send nothing and one that sends half a request line are opened to it and kept: the scrape, the health check and the unknown path must still be answered (2 s)"
              " The direct-forwarder flow suite of C07 (c07, with the restarting destination) runs here too"
-             " Ten bursts of three datagrams towards an HTTP/1.1 _udp2 client (its datagram sink holds one, the rest is dropped): the peer -> client counter of http1 equals the payload bytes of the 6.4 records the client was actually sent",
+             " Ten bursts of three datagrams towards an HTTP/1.1 _udp2 client (its datagram sink holds one, the rest is dropped): the peer -> client counter of http1 equals the payload bytes of the 6.4 records the client was actually sent"
+             " The same bursts with 30 KB datagrams towards an HTTP/2 client (the stream's send window cannot take three at once)",
         explanation="theorems cells_equal_objects, gauges_nonneg, all_clients_gone_sessions_udp_zero, all_clients_gone_everything_zero, "
                     "refused_connect_balanced, hanging_connect_released_by_timeout, counters_monotone, up_adds_exactly, "
                     "down_adds_exactly, no_relay_no_bytes, half_closed_tunnel_released_when_both_ended, icmp_counts_only_relayed, udp_bytes_follow_multiplexer, documented_series, documented_paths about "
@@ -1201,7 +1230,8 @@ PROPS = {
              " A third of the generated requests repeat a header name on two or three lines (all must be forwarded)"
              " Responses carry Connection headers that nominate other fields of the response (X-Thing, SERVER, Set-Cookie, Content-Type, Upgrade) in their own spelling, ahead of those fields and behind them; a third of the requests with a declared length have more body bytes than declared (theorem connection_nominated_headers_removed)"
              " Timer restarts (suite c17restart): POSTs over HTTP/1.1, 2, 3 whose body pauses for 4/3 ... 5/2 of the idle timeout while the origin sends an interim response every T/2: the pipe's loops are restarted under the pending read of the body, and the origin must still get all of it"
-             " The flow-control credit handed to the client's request-body source (consume calls logged by the scripted source) is part of every compared answer: never ahead of what was read from it, and in the end exactly the body bytes the origin accepted (theorem request_credit_exact) - a third of the cases have an origin that accepts the request in pieces of 0-20 bytes",
+             " The flow-control credit handed to the client's request-body source (consume calls logged by the scripted source) is part of every compared answer: never ahead of what was read from it, and in the end exactly the body bytes the origin accepted (theorem request_credit_exact) - a third of the cases have an origin that accepts the request in pieces of 0-20 bytes"
+             " Response direction across timer restarts (suite c17restart): 5 shapes of a POST whose body trickles in (one byte every T/10) while the client takes 0-25 of the 26 response body bytes and then nothing for 1.2-3.5 T: the whole body must still be delivered",
         explanation="request_credit_exact, head_in_pieces_not_credited (flow-control credit of the request body under every acceptance schedule); theorems segmentation_and_backpressure_independent, independent_after_origin_close, delivery_monotone, "
                     "chunked_body_delivered_exactly, content_length_body_delivered_exactly, close_delimited_body_delivered_exactly, "
                     "bodiless_response_ends_with_head, head_204_304_are_bodiless, interim_response_is_transparent, "
@@ -1241,7 +1271,8 @@ PROPS = {
              "connection is sent SIGINT: it must exit with code 0 within 10 s and the HTTP/3 client must see its connection closed"
              " HTTP/2 with a request in flight: a CONNECT whose outbound attempt takes 5 s is pending when the shutdown is submitted; a second request is handed to the client's connection 0..4 scheduler turns before, or 0..2 after, the submission (in one of these it is on the wire but unread when the wind-down starts), or not at all: the first request must be answered 200 when its attempt completes, the session must not end before, and completion() follows once the streams have ended"
              " Borrowed: the HTTP/1.1 sessions of C08 that end while a chunk is queued towards a slow client (flush and close: the client must get all of it)"
-             " After completion() of the metrics-listener participant nothing accepts on the metrics address any more",
+             " After completion() of the metrics-listener participant nothing accepts on the metrics address any more"
+             " A speedtest session in the middle of a 100 MB download to a client that has stopped reading: after the submission completion() must stay pending while the session's wind-down cannot finish (500 ms), and come once the client is gone; for every participant kind completion() is also awaited right after the submission and must not return while the participant's task is unfinished",
         explanation="theorems registered_before_submit_observes, waiting_participant_is_woken, no_submit_no_notification, "
                     "completion_iff_all_finished, completion_stable, late_registration_gets_no_guard about TT/Model/Shutdown.lean",
         trusted=["tokio broadcast (capacity 1, lag) and mpsc close semantics as modelled",
@@ -1300,7 +1331,8 @@ PROPS = {
              " Reverse-proxy requests (path mask + Upgrade) on connections that authenticated by SNI (accepted / rejected credentials / none), without a Host header, with one, with an absolute target"
              " Refused SNIs have the credentials label in front of one, two and three further labels (<creds>.unknownhost, <creds>.localhos, ...)"
              " Plain-HTTP requests whose origin is reached (GET / POST, forwarded with Authorization and Cookie) are among the targets; the log-site scan also treats a request in serialised form (serialized_request, request_bytes ...) as secret-bearing"
-             " Failed TLS handshakes over TCP with credential SNIs on the live endpoint (the client stalls until the handshake timeout, closes, sends garbage, sends half a hello). The capture logger keeps what the endpoint's own loggers would write: their filter is compared with the model at every maximum x level x 11 targets",
+             " Failed TLS handshakes over TCP with credential SNIs on the live endpoint (the client stalls until the handshake timeout, closes, sends garbage, sends half a hello). The capture logger keeps what the endpoint's own loggers would write: their filter is compared with the model at every maximum x level x 11 targets"
+             " What the two loggers write through log() (one marked record per maximum x level x 5 targets through the real file logger and the real stdout logger, stdout pointed at a scratch file) is compared with the filter model",
         explanation="theorems scrub_request_hides (non-interference), scrubbed_values_are_placeholders, scrub_keeps_other_headers, "
                     "scrub_adds_nothing, scrub_sni_hides_label, meta_debug_hides_creds about TT/Model/Scrub.lean; all_log_sites_clean over the "
                     "regenerated TT/Gen/LogSites.lean; tls_library_traces_never_logged, other_records_follow_the_level about the filter of the endpoint's loggers",
